@@ -27,7 +27,9 @@ META = {
             'distinct (status, clock, log of the last operation) observations',
     'alphabet': {'completer_position(priority)': POS, 'completing_timestep': TCS, 'logger': 'library default, or a caller-supplied logger with level ERROR',
                  'completer style': 'plain | complete()+clean_up() in one execute | complete() then raise (caught by the '
-                                    'driver) | all systems with a finite end=2', 'recorders(key,priority)': RECS,
+                                    'driver) | all systems with a finite end=2 | gated (model class with its own running condition, operation gate) | '
+                                    'spawning (registers a system right before completing) | unimplemented (ends in the base '
+                                    'class\'s NotImplementedError)', 'recorders(key,priority)': RECS,
                  'ops': 'execute(1), execute(2), execute(3), execute_systems(), execute_systems(throw_error=True), '
                         'complete() from outside, remove/add r0, remove/add rm, add new (priority 3), '
                         'complete() from inside by the completer when timestep == tc'},
